@@ -30,8 +30,8 @@ type c16Case struct {
 	LongLen int               `json:"longlen,omitempty"` // overlong: length of the line
 	// LongHeader (overlong): the long line is not an instruction of a function of its own but the header line of function
 	// At itself (a symbol with a very long instantiated type)
-	LongHeader bool `json:"long_header,omitempty"`
-	Path    string            `json:"path,omitempty"`    // unreadable: path to offer
+	LongHeader bool   `json:"long_header,omitempty"`
+	Path       string `json:"path,omitempty"` // unreadable: path to offer
 }
 
 func drawNum(t *rapid.T, table []int) int {
